@@ -54,6 +54,8 @@ type likeShape struct {
 	NDis    int            `json:"ndis"`
 	Witness []string       `json:"witness"`
 	Cls     string         `json:"cls"`
+	RewAW   [][]likeFactor `json:"rewaw"` // what like_optimizer.go produced before /repo 9f6402e
+	ClsAW   string         `json:"clsaw"`
 }
 
 type c17Input struct {
@@ -377,8 +379,9 @@ func c17Time(env *sr.Env, in *c17Input, res *c17Result, keys map[string]bool,
 var likeVariants = map[string][]string{
 	"L":  {"a%d LIKE '%%x%%'", "a%d NOT LIKE '%%x%%'", "a%d LIKE 'ax%%'"},
 	"E":  {"c%d <> ''", "c%d<>''"},
-	"X":  {"d%d = 1", "NOT d%d = 1", "(d%d = 1)", "NOT c%d <> ''", "(c%d <> '')", "(d%[1]d = 1 OR c%[1]d <> '')"},
-	"XL": {"NOT a%d NOT LIKE '%%x%%'", "(a%d LIKE '%%x%%')", "(a%[1]d LIKE '%%x%%' OR d%[1]d = 1)", "NOT (a%[1]d NOT LIKE '%%x%%' OR c%[1]d = '')"},
+	"X":  {"d%d = 1", "NOT d%d = 1", "(d%d = 1)", "NOT c%d <> ''", "(c%d <> '')", "(d%[1]d = 1 AND c%[1]d <> '')"},
+	"XL": {"NOT a%d NOT LIKE '%%x%%'", "(a%d LIKE '%%x%%')", "(a%[1]d LIKE '%%x%%' AND d%[1]d = 1)", "NOT (a%[1]d NOT LIKE '%%x%%')"},
+	"XO": {"(a%[1]d LIKE '%%x%%' OR d%[1]d = 1)", "NOT (a%[1]d NOT LIKE '%%x%%' OR c%[1]d = '')", "(a%[1]d LIKE '%%x%%' or a%[1]d LIKE 'ax%%')"},
 }
 
 func renderWhere(ch [][]likeFactor, variant map[int]int) string {
@@ -449,6 +452,7 @@ func c17Like(env *sr.Env, in *c17Input, res *c17Result, keys map[string]bool, rn
 		head := "SELECT id FROM lk WHERE "
 		orig := head + renderWhere(s.Orig, variant) + tl
 		pred := head + renderWhere(s.Rew, variant) + tl
+		predAW := head + renderWhere(s.RewAW, variant) + tl
 		real, _ := api.OptimizeLikePatterns(orig)
 		res.Evaluations++
 		keys[fmt.Sprintf("like|%d|%s", si, s.Cls)] = true
@@ -477,6 +481,9 @@ func c17Like(env *sr.Env, in *c17Input, res *c17Result, keys map[string]bool, rn
 		sig := "like-reorder:" + s.Cls
 		if strings.HasPrefix(s.Cls, "agree:") || squash(real) != squash(pred) {
 			sig = "like-reorder:unpredicted-difference"
+			if s.ClsAW != "" && squash(real) == squash(predAW) {
+				sig = "like-reorder:" + s.ClsAW // the behaviour repaired by /repo 9f6402e is back
+			}
 		}
 		w["original_rows"] = len(o.Data)
 		w["rewritten_result"] = r.Brief(3)
